@@ -60,6 +60,7 @@ LifeAfterOwe(f) == IF Tracked THEN life
 OwedAfterOwe(f) == IF Tracked THEN f @@ owed ELSE owed
 Scoped(S, scope) == [e \in S |-> scope]
 OpScope == <<"op">>
+ReplacedScope == <<"replaced">>
 ValScope(h) == <<"val", h>>
 OwedIn(scope) == {e \in DOMAIN owed : owed[e] = scope}
 
@@ -155,6 +156,8 @@ SrcKindOK(name, kinds) ==
       [] name \in {"try_from_vec", "arr_try_from_vec", "vec_into_bslice"} -> kinds[1] = "vec"
       [] name \in {"map", "fold", "clone"} -> kinds[1] \in {"arr", "box"}
       [] name = "zip" -> kinds[1] \in {"arr", "box"} /\ kinds[2] \in {"arr", "box"}
+      [] name = "clone_from" -> kinds[1] \in {"arr", "box"} /\ kinds[2] = kinds[1]
+      [] name = "iter_clone_from" -> kinds[1] = "iter" /\ kinds[2] = "iter"
       [] OTHER -> TRUE
 
 NewOp(c, srcs, kinds) ==
@@ -182,7 +185,16 @@ Call(c) ==
        /\ SrcKindOK(c.op, kinds)
        /\ Defined(c.op, [i \in DOMAIN srcs |-> Len(srcs[i])], c.arg)
        /\ loose' = loose \ SeqRange(c.elems)
-       /\ IF IsCbOp(c.op) \/ IsCollectOp(c.op) \/ IsSerdeOp(c.op)
+       /\ IF c.op \in CloneFromOps
+          THEN \* the destination is mutably borrowed for the whole call: nobody can look at it; what it held is
+               \* to be dropped by the library (scope "replaced") at any point of the call
+               /\ Len(c.recv) = 2 /\ ~c.byval[1] /\ ~c.byval[2] /\ c.n = Len(srcs[2])
+               /\ op' = NewOp(c, srcs, kinds)
+               /\ pool' = [pool EXCEPT ![c.recv[1]].items = <<>>]
+               /\ LET f == Scoped(SeqRange(srcs[1]), ReplacedScope) IN
+                  /\ owed' = OwedAfterOwe(f)
+                  /\ life' = LifeAfterOwe(f)
+          ELSE IF IsCbOp(c.op) \/ IsCollectOp(c.op) \/ IsSerdeOp(c.op)
           THEN /\ op' = NewOp(c, srcs, kinds)
                /\ pool' = Restrict(pool, DOMAIN pool \ moved)
                /\ UNCHANGED <<life, owed>>
@@ -311,11 +323,12 @@ Abandon ==
 
 \* Clone::clone / Default::default of an element are the callbacks of
 \* Clone / Default / iterator clone (call and return in one step)
+CloneSrcSeq == IF op.name \in CloneFromOps THEN op.srcs[2] ELSE op.srcs[1]
 CloneGuard(src) ==
-    /\ ~Idle /\ op.name \in {"clone", "iter_clone"} /\ op.phase = "idle" /\ op.k < op.n
-    /\ IF op.name = "iter_clone"
-       THEN src \in SeqRange(op.srcs[1]) \ DOMAIN op.cmap       \* any order, each element once
-       ELSE src = op.srcs[1][op.k + 1]                          \* element k, ascending (C08)
+    /\ ~Idle /\ op.name \in {"clone", "iter_clone"} \cup CloneFromOps /\ op.phase = "idle" /\ op.k < op.n
+    /\ IF op.name \in {"iter_clone", "iter_clone_from"}
+       THEN src \in SeqRange(CloneSrcSeq) \ DOMAIN op.cmap      \* any order, each element once
+       ELSE src = CloneSrcSeq[op.k + 1]                         \* element k, ascending (C08)
     /\ Live(src)
 CloneStep(src, new) ==
     /\ CloneGuard(src)
@@ -325,7 +338,9 @@ CloneStep(src, new) ==
     /\ UNCHANGED <<pool, loose, owed, heap, cfg>>
 ClonePanicStep(src) ==
     /\ CloneGuard(src)
-    /\ LET f == Scoped(SeqRange(op.out), OpScope) IN
+    \* (clone_from: the clones made so far may already sit in the destination - element-wise replacement - or be
+    \*  dropped: they join what the destination held; UnwoundCloneFrom settles the account)
+    /\ LET f == Scoped(SeqRange(op.out), IF op.name \in CloneFromOps THEN ReplacedScope ELSE OpScope) IN
        /\ owed' = OwedAfterOwe(f)
        /\ life' = LifeAfterOwe(f)
     /\ op' = [op EXCEPT !.phase = "unwinding"]
@@ -337,8 +352,41 @@ DefaultStep(new) ==
     /\ op' = [op EXCEPT !.k = @ + 1, !.out = Append(@, new)]
     /\ UNCHANGED <<pool, loose, owed, heap, cfg>>
 
+\* clone_from returned: the destination holds exactly the clones, in the source's order; everything it held before
+\* has been dropped (once: DropEv); the source is untouched
+CloneFromItems == [i \in DOMAIN op.srcs[2] |-> op.cmap[op.srcs[2][i]]]
+RetCloneFrom(r) ==
+    /\ ~Idle /\ op.name \in CloneFromOps /\ op.phase = "idle"
+    /\ op.k = op.n
+    /\ OpOwedEmpty /\ OwedIn(ReplacedScope) = {}
+    /\ r.err = FALSE /\ r.vals = <<>> /\ r.outs = <<>>
+    /\ AllLive(CloneFromItems)
+    /\ pool' = [pool EXCEPT ![op.recv[1]].items = CloneFromItems]
+    /\ Len(r.obs) = 2
+    /\ \A i \in DOMAIN r.obs : LET o == r.obs[i] IN
+         /\ o.h = op.recv[i]
+         /\ ItemsEq(o.items, pool'[o.h].items)
+         /\ (pool[o.h].kind = "iter" => o.len = Len(o.items) /\ o.lo = o.len /\ o.hi = o.len)
+    /\ op' = NoOp
+    /\ UNCHANGED <<life, loose, owed, heap, cfg>>
+\* a Clone::clone panicked inside clone_from: the destination is a valid value made of elements it held before and
+\* of clones made by this call, each at most once; every other such element has been dropped; nothing else moved
+UnwoundCloneFrom(u) ==
+    /\ ~Idle /\ op.name \in CloneFromOps /\ op.phase = "unwinding" /\ Strict
+    /\ OpOwedEmpty
+    /\ Len(u.obs) = 2 /\ u.obs[1].h = op.recv[1] /\ u.obs[2].h = op.recv[2]
+    /\ LET w == u.obs[1].items IN
+       /\ NoDup(w) /\ SeqRange(w) = OwedIn(ReplacedScope)
+       /\ Len(w) = Len(op.srcs[1]) \/ pool[op.recv[1]].kind = "iter"
+       /\ (pool[op.recv[1]].kind = "iter" => u.obs[1].len = Len(w))
+       /\ pool' = [pool EXCEPT ![op.recv[1]].items = w]
+       /\ owed' = Restrict(owed, DOMAIN owed \ SeqRange(w))
+    /\ ItemsEq(u.obs[2].items, pool[op.recv[2]].items)
+    /\ op' = NoOp
+    /\ UNCHANGED <<life, loose, heap, cfg>>
+
 RetCb(r) ==
-    /\ ~Idle /\ IsCbOp(op.name) /\ op.phase = "idle"
+    /\ ~Idle /\ IsCbOp(op.name) /\ op.name \notin CloneFromOps /\ op.phase = "idle"
     /\ op.k = op.n
     /\ OpOwedEmpty
     /\ r.err = FALSE /\ r.vals = <<>>
@@ -366,7 +414,7 @@ IsSubWindow(w, s) == \E a \in 0..Len(s) : \E b \in a..Len(s) : w = SubSeq(s, a +
 
 \* u = [obs, msg]
 Unwound(u) ==
-    /\ ~Idle /\ op.phase = "unwinding"
+    /\ ~Idle /\ op.phase = "unwinding" /\ op.name \notin CloneFromOps
     /\ IF Strict
        THEN /\ OpOwedEmpty
             \* receivers passed by reference are untouched by a failed call
